@@ -332,6 +332,14 @@ def run(tier, seed, replay=None):
         pre = [i for i, e in enumerate(p.events, start=1) if not e["par"]]
         sched = list(pre)
         cmds = legalize(random_script(rng, len(p.events)))
+        if kk % 4 == 1:      # pure stepping (no breakpoints/hooks) over a program with many cancelled events
+            for j, e in enumerate(p.events, start=1):
+                if rng.random() < 0.35:
+                    c = rng.randint(1, len(p.events))
+                    if c != j:
+                        e["cby"] = c
+            cmds = [dict(op="pause", a=0, b=0), dict(op="run", a=0, b=0)] + \
+                   [dict(op="step", a=rng.randint(1, 4), b=0) for _ in range(rng.randint(1, 6))]
         if kk % 4 == 3:      # a reset somewhere, program without pre-run cancels to keep entities stateless
             for e in p.events:
                 e["cby"] = 0
